@@ -15,11 +15,12 @@
         RoundTrip       Parse(Join(Parse(s))) = Parse(s)
         GrammarSound    a tuple of valid tokens in a legal combination parses to itself
         SetterLaw       a setter-built URI is representable iff Parse(Join(c)) = c
-   and Emit prints the reference results which harness/util_drv.c compares with
-   the real parser, join and setters (binding G).
+   (conjoined in the single invariant All so that the parse results of a state are
+   computed once) and All prints the reference results which harness/util_drv.c
+   compares with the real parser, join and setters (binding G).
 
-   State: the tuple plus the number of components changed from the base tuple;
-   BFS from the base enumerates every tuple with at most K changed components.
+   State: the tuple, the number of components changed from the base tuple and the
+   base's name; BFS from the bases enumerates every tuple with at most K changed components.
 
    Named deviations (code behaviour the property does not contradict):
      PortRange          a port above 65535 is rejected (RFC: *DIGIT)
@@ -167,7 +168,7 @@ Parse(str, nc, sb, ux) ==
                 \/ (hasA /\ pa # <<>> /\ pa[1] # SLASH)
                 \/ (~hasA /\ Len(pa) >= 2 /\ pa[1] = SLASH /\ pa[2] = SLASH)
                 \/ (~hasS /\ ~NoSchemePathOK(pa))
-             THEN Reject
+             THEN [st |-> "reject", slash |-> au.slash]      \* keeps the known-finding trigger visible
              ELSE [st |-> "ok", s |-> sch, u |-> au.u, h |-> au.h, p |-> au.p, x |-> au.x, pa |-> pa, q |-> q, f |-> f,
                    br |-> au.br, slash |-> au.slash]
 
@@ -392,7 +393,7 @@ SetterLaw == SetterLawP(SR)
 
 -----------------------------------------------------------------------------
 (* generation *)
-Out(r) == IF IsRec(r) THEN [st |-> "ok", c |-> Pub(r), slash |-> IF r.slash THEN 1 ELSE 0] ELSE [st |-> r.st, slash |-> 0]
+Out(r) == IF IsRec(r) THEN [st |-> "ok", c |-> Pub(r), slash |-> IF r.slash THEN 1 ELSE 0] ELSE [st |-> r.st, slash |-> IF "slash" \in DOMAIN r /\ r.slash THEN 1 ELSE 0]
 ParseRecP(pr) == [i |-> B, fl |-> [n \in 1..8 |-> PubFlags(n - 1)], r |-> [n \in 1..8 |-> Out(pr[n - 1])]]
 SetOutP(fl, sr) ==
   IF sr[fl].why = "skip" THEN [fl |-> -1]
